@@ -40,12 +40,19 @@ def need(c, msg):
         raise Violation(msg)
 
 
+_OTHER_TL = {"bpms": [[0, "77"], [96, "155.5"]], "stops": [[48, "0.75"]], "delays": [[48, "0.5"]], "warps": [[144, 48]], "offset": "0.333"}
+
+
 def build_engine(tl):
     from simfile.ssc import SSCSimfile
     from simfile.timing import TimingData
     from simfile.timing.engine import TimingEngine
 
-    return TimingEngine(timing_data(tl))
+    eng = TimingEngine(timing_data(tl))
+    # another engine from other timing data, built after this one and before this one is asked anything: engines are
+    # independent objects
+    TimingEngine(timing_data(_OTHER_TL)).time_at(frac_beat(F(3)))
+    return eng
 
 
 def frac_beat(fr):
